@@ -143,11 +143,39 @@ func do(j job, yield bool) string {
 	}
 	switch j.kind {
 	case "record":
-		m, err := intoto.RecordArtifacts([]string{j.dir}, []string{"sha256"}, nil, nil, false, true)
-		if err != nil {
-			return "err:" + err.Error()
+		// several times over: every file is opened, read and closed each time
+		res := ""
+		for it := 0; it < 6; it++ {
+			m, err := intoto.RecordArtifacts([]string{j.dir}, []string{"sha256"}, nil, nil, false, true)
+			if err != nil {
+				return res + "err:" + err.Error()
+			}
+			if c := canonArts(m); c != res {
+				res += c
+			}
 		}
-		return canonArts(m)
+		return res
+	case "rundircheck":
+		// the entry point with a run directory, on an EMPTY run directory of the job's own: the call
+		// inspects the directory (exists, is a directory, is writable, is empty) and returns; hundreds
+		// of times, while other jobs open and close files of their own
+		// (seeded change c16-iswritable-double-close: a descriptor closed twice belongs to somebody else the second time)
+		rd := filepath.Join(j.dir, "emptyrundir")
+		os.MkdirAll(rd, 0o755)
+		pub := j.key
+		pub.KeyVal.Private = ""
+		res := ""
+		for it := 0; it < 400; it++ {
+			_, err := intoto.InTotoVerifyWithDirectory(j.layout, map[string]intoto.Key{pub.KeyID: pub}, filepath.Join(j.dir, "chain"), rd, "", nil, nil, false)
+			e := "nil"
+			if err != nil {
+				e = err.Error()
+			}
+			if e != res {
+				res += e + ";"
+			}
+		}
+		return res
 	case "run":
 		md, err := intoto.InTotoRun("s", j.dir, []string{j.dir}, []string{j.dir}, []string{"sh", "-c", "echo hi > out.txt"}, j.key, []string{"sha256"}, nil, nil, false, true, false)
 		if err != nil {
@@ -160,16 +188,29 @@ func do(j job, yield bool) string {
 		if err := mb.Sign(j.key); err != nil {
 			return "err:" + err.Error()
 		}
+		// written and read back many times, under a file name every job uses (in its own directory):
+		// what comes back is what THIS job wrote (seeded change c16-dump-shared-scratch-file)
 		p := filepath.Join(j.dir, "x.link")
-		if err := mb.Dump(p); err != nil {
-			return "err:" + err.Error()
+		res := ""
+		for it := 0; it < 25; it++ {
+			if err := mb.Dump(p); err != nil {
+				return "err:" + err.Error()
+			}
+			md, err := intoto.LoadMetadata(p)
+			if err != nil {
+				return res + "err:" + err.Error()
+			}
+			lmb, ok := md.(*intoto.Metablock)
+			if !ok {
+				return res + "err:wrapper"
+			}
+			b, _ := lmb.GetSignableRepresentation()
+			if it == 0 {
+				res = string(b)
+			}
+			res += fmt.Sprint(md.VerifySignature(j.key) == nil, md.GetPayload().(intoto.Link).Name == j.dir)
 		}
-		md, err := intoto.LoadMetadata(p)
-		if err != nil {
-			return "err:" + err.Error()
-		}
-		b, _ := md.(*intoto.Metablock).GetSignableRepresentation()
-		return string(b) + fmt.Sprint(md.VerifySignature(j.key) == nil)
+		return res
 	case "relrecord":
 		// the job's own directory, named RELATIVE to the process's working directory (which no library
 		// call may change): several recordings while other goroutines run commands with a run directory
@@ -263,13 +304,13 @@ func main() {
 	base, _ := os.MkdirTemp("", "verif-race-")
 	defer os.RemoveAll(base)
 	os.Chdir(base) // relative paths below are relative to this directory
-	kinds := []string{"record", "verify", "run", "certcheck", "relrecord", "signload", "rundir", "certcheck", "verify", "dsse", "relrecord", "record", "rundir", "verify"}
+	kinds := []string{"record", "rundircheck", "verify", "run", "signload", "rundircheck", "certcheck", "relrecord", "signload", "rundir", "certcheck", "verify", "dsse", "relrecord", "record", "rundir", "verify", "signload"}
 	var jobs []job
 	for i := 0; i < *n; i++ {
 		d := filepath.Join(base, fmt.Sprintf("w%d", i))
 		setupTree(d, i, *symlinks)
 		jb := job{kind: kinds[i%len(kinds)], dir: d, key: mkKey(), rel: fmt.Sprintf("w%d", i)}
-		if jb.kind == "verify" {
+		if jb.kind == "verify" || jb.kind == "rundircheck" {
 			jb.layout = setupVerify(d, i, jb.key)
 		}
 		if jb.kind == "certcheck" {
